@@ -143,6 +143,9 @@ func cmdCheck(args []string) int {
 	}
 	for _, j := range jobs {
 		j.Prop = id
+		if j.MapOrders {
+			j.Params["__maporders"] = "1"
+		}
 	}
 	ex := NewExplorer(prog, *workers)
 	ex.verbose = *verbose
